@@ -1,0 +1,31 @@
+//go:build verif
+
+// Contracts for internal/json (dgv). Comment-only file.
+// The number and string formatters are native (assembly) code: their contracts are TRUSTED and say only that the
+// bytes appended are a function of the value — i64len/i64dig, f64len/f64dig are uninterpreted — and that the
+// prefix is kept. What callers prove on top of this is WHICH value (which reader, which signedness) reaches the
+// formatter, not the digits themselves.
+package json
+
+//@ rec i64len(v int64) int = i64len(v)
+//@ rec i64dig(v int64, k int) byte = i64dig(v, k)
+//@ rec f64len(v uint64) int = f64len(v)
+//@ rec f64dig(v uint64, k int) byte = f64dig(v, k)
+
+//@ spec EncodeInt64
+//@   props C08 C03
+//@   trusted
+//@   ensures len: len(r0) == len(buf) + i64len(val) && 1 <= i64len(val) && i64len(val) <= 20
+//@   ensures prefix: forall i :: 0 <= i && i < len(buf) ==> r0[i] == old(buf[i])
+//@   ensures digits: forall k :: 0 <= k && k < i64len(val) ==> r0[len(buf)+k] == i64dig(val, k)
+//@   ensures mem: (same(r0, buf) && cap(r0) == cap(buf)) || fresh(r0)
+//@   modifies buf[len(buf):cap(buf)]
+
+//@ spec EncodeFloat64
+//@   props C08 C03
+//@   trusted
+//@   ensures len: len(r0) == len(buf) + f64len(bits(val)) && 1 <= f64len(bits(val)) && f64len(bits(val)) <= 32
+//@   ensures prefix: forall i :: 0 <= i && i < len(buf) ==> r0[i] == old(buf[i])
+//@   ensures digits: forall k :: 0 <= k && k < f64len(bits(val)) ==> r0[len(buf)+k] == f64dig(bits(val), k)
+//@   ensures mem: (same(r0, buf) && cap(r0) == cap(buf)) || fresh(r0)
+//@   modifies buf[len(buf):cap(buf)]
